@@ -74,10 +74,14 @@ InsideChar(lt, line, col) == ~PastEof(lt, line) /\ col \in Range(lt[line + 1].nb
 (* The code today uses (line, character) as indices into the analysed text: which defect a request trips, "" if none. *)
 (* (rename.rs:32-52 slices line[..col] and line[col..]; completion.rs:38-42 split_at(col-1); both call                 *)
 (*  File::source_line(line), which asserts line < number of lines.)                                                   *)
-DeathOf(kind, lt, line, col) ==
-  IF kind \in {"prepareRename", "completion"} /\ PastEof(lt, line) THEN "SourceLinePastEof"
-  ELSE IF kind = "prepareRename" /\ (ByteOob(lt, line, col) \/ InsideChar(lt, line, col)) THEN "PrepareRenameSlicesPastEol"
-  ELSE IF kind = "completion" /\ col > 0 /\ ~ByteOob(lt, line, col) /\ InsideChar(lt, line, col - 1) THEN "CompletionSplitsInsideChar"
+(* devs: the defects present in the reading at hand; a repaired handler answers (null / no items) instead.            *)
+DeathOf(kind, lt, line, col, devs) ==
+  IF "SourceLinePastEof" \in devs /\ kind \in {"prepareRename", "completion"} /\ PastEof(lt, line) THEN "SourceLinePastEof"
+  ELSE IF PastEof(lt, line) THEN ""
+  ELSE IF "PrepareRenameSlicesPastEol" \in devs /\ kind = "prepareRename" /\ (ByteOob(lt, line, col) \/ InsideChar(lt, line, col))
+    THEN "PrepareRenameSlicesPastEol"
+  ELSE IF "CompletionSplitsInsideChar" \in devs /\ kind = "completion" /\ col > 0 /\ ~ByteOob(lt, line, col) /\ InsideChar(lt, line, col - 1)
+    THEN "CompletionSplitsInsideChar"
   ELSE ""
 
 (* a returned range <<sl, sc, el, ec>> lies inside the document with line table lt (LSP: UTF-16 code units) *)
